@@ -22,7 +22,7 @@ func init() {
 			Why: "the default allow-list is asymmetric only (no none, no HS*)"},
 		{ID: "E7.sig.default-algs.literal", AltOf: "E7.sig.default-algs", Fn: "oidc.toJoseSignatureAlgorithms", P: []string{"algorithms"}, Kind: "ret any",
 			Pat: "ret([]jose.SignatureAlgorithm{jose.RS256, jose.ES256, jose.PS256})", Nots: []string{"ret([]jose.SignatureAlgorithm{3: _})"}, Req: []string{"eq(len($algorithms), 0)"}},
-		{ID: "E7.sig.default-algs.only", Fn: "oidc.toJoseSignatureAlgorithms", Kind: "call", Pat: "append(__)", Max: 1, Req: nil},
+		{ID: "E7.sig.default-algs.only", Fn: "oidc.toJoseSignatureAlgorithms", Kind: "call", Pat: "append(__)", Max: 1, Opt: true, Req: nil},
 
 		{ID: "E1.parse.three-segments", Fn: "oidc.ParseToken", P: []string{"tokenString", "claims"}, Kind: "ret ok",
 			Req: []string{`def($parts, strings.Split($tokenString, "."))`, "eq(len($parts), 3)", "def($r0, base64.RawURLEncoding.DecodeString($parts[1]), 0)",
